@@ -46,7 +46,7 @@ impl<'de> Deserializer<'de> for One {
 
 fn serde_cases<B: Backend>(bk: &str, sum: &mut Summary, w: &mut CaseWriter, seen: &mut std::collections::HashSet<String>) {
     let texts: Vec<Vec<u8>> = vec![vec![], b"a".to_vec(), "h\u{e9}llo \u{1F980}".as_bytes().to_vec(), vec![b'x'; 23], vec![b'y'; 24], vec![b'z'; 60]];
-    let bads: Vec<Vec<u8>> = vec![vec![0x80], vec![0xC0, 0x80], vec![b'a', 0xED, 0xA0, 0x80], vec![0xF4, 0x90, 0x80, 0x80], { let mut v = vec![b'q'; 30]; v.push(0xFF); v }];
+    let bads: Vec<Vec<u8>> = vec![vec![0x80], vec![0xC0, 0x80], vec![b'a', 0xED, 0xA0, 0x80], vec![0xF4, 0x90, 0x80, 0x80], { let mut v = vec![b'q'; 30]; v.push(0xFF); v }, vec![0xC3], b"abc\xF0\x9F".to_vec(), { let mut v = vec![b'z'; 40]; v.extend_from_slice(&[0xE2, 0x82]); v }];
     let mut toks: Vec<Tok> = vec![Tok::Other];
     for t in &texts {
         let leaked: &'static [u8] = Box::leak(t.clone().into_boxed_slice());
@@ -126,13 +126,15 @@ fn json_roundtrips<B: Backend>(bk: &str, sum: &mut Summary) {
 }
 
 fn borsh_cases<B: Backend>(bk: &str, sum: &mut Summary, w: &mut CaseWriter, seen: &mut std::collections::HashSet<String>) {
-    let values: Vec<Vec<u8>> = vec![vec![], b"a".to_vec(), "h\u{e9}llo".as_bytes().to_vec(), vec![b'x'; 23], vec![b'y'; 24], vec![b'z'; 100], vec![0x80, 0xFF], { let mut v = vec![b'q'; 30]; v.push(0xC0); v }];
+    let values: Vec<Vec<u8>> = vec![vec![], b"a".to_vec(), "h\u{e9}llo".as_bytes().to_vec(), vec![b'x'; 23], vec![b'y'; 24], vec![b'z'; 100], vec![0x80, 0xFF], { let mut v = vec![b'q'; 30]; v.push(0xC0); v },
+        // truncated multi-byte sequences at the very end (incomplete, not invalid, for an incremental validator)
+        vec![0xC3], b"abc\xF0\x9F".to_vec(), b"ab\xE2\x82".to_vec(), { let mut v = vec![b'z'; 40]; v.extend_from_slice(&[0xF0, 0x9F, 0xA6]); v }, { let mut v = vec![b'a'; 4095]; v.push(0xC3); v }, { let mut v = vec![b'a'; 4095]; v.extend_from_slice("\u{e9}".as_bytes()); v }];
     let mut inputs: Vec<Vec<u8>> = vec![vec![], vec![1], vec![1, 0, 0], vec![0xff, 0xff, 0xff, 0xff, 1, 2, 3], vec![0, 0, 0, 0x80, 9, 9], vec![0x10, 0x27, 0, 0, 5]];
     for v in &values {
         let enc = borsh::to_vec(&HipByt::<B>::from(&v[..])).unwrap();
         if enc != borsh::to_vec(v).unwrap() { sum.violation(format!("{{\"what\":{},\"observed\":\"HipByt does not use the byte-string encoding\",\"expected\":\"Vec<u8> encoding\"}}", jstr(&format!("borsh ser bk={}", bk)))); }
         if let Ok(s) = std::str::from_utf8(v) { if borsh::to_vec(&HipStr::<B>::from(s)).unwrap() != borsh::to_vec(s).unwrap() { sum.violation(format!("{{\"what\":{},\"observed\":\"HipStr serialises unlike str\",\"expected\":\"str encoding\"}}", jstr(&format!("borsh ser bk={}", bk)))); } }
-        for cut in 0..=enc.len() { if cut <= 8 || cut + 3 >= enc.len() || cut % 7 == 0 { inputs.push(enc[..cut].to_vec()); } }
+        for cut in 0..=enc.len() { if cut <= 8 || cut + 3 >= enc.len() || (enc.len() < 200 && cut % 7 == 0) { inputs.push(enc[..cut].to_vec()); } }
         let mut more = enc.clone(); more.extend_from_slice(&[7, 7]); inputs.push(more);
     }
     for input in inputs {
